@@ -71,7 +71,7 @@ func (g *control) proc(depth int, inLoop bool) psref.Tok {
 
 func (g *control) stmt(depth int, inLoop, first, last bool) []psref.Tok {
 	g.budget--
-	k := g.draw(30, "stmt")
+	k := g.draw(32, "stmt")
 	switch {
 	case k < 5:
 		return []psref.Tok{g.tr()}
@@ -193,6 +193,44 @@ func (g *control) stmt(depth int, inLoop, first, last bool) []psref.Tok {
 		default:
 			return []psref.Tok{psref.TL(name), psref.TX("load"), psref.TX("exec")}
 		}
+	case k == 30 || k == 31:
+		// A loop whose body is a single name, where running the named
+		// procedure changes what the name means (redefinition in the current
+		// dictionary, or a new dictionary on the dictionary stack): the name
+		// is looked up again in every iteration.
+		g.feat["loop"] = true
+		g.feat["single-name-body-rebound"] = true
+		name := []string{"p", "q"}[g.draw(2, "selfname")]
+		g.names = append(g.names, name)
+		var second []psref.Tok // body of the replacement
+		var first []psref.Tok  // rest of the first body
+		kind := g.draw(4, "selfloop")
+		switch kind {
+		case 0: // repeat
+			second, first = []psref.Tok{g.tr()}, []psref.Tok{g.tr()}
+		case 1: // loop: the replacement leaves the loop
+			second, first = []psref.Tok{g.tr(), psref.TX("exit")}, []psref.Tok{g.tr()}
+		default: // for / forall: the body receives an operand
+			second, first = []psref.Tok{psref.TX("pop"), g.tr()}, []psref.Tok{psref.TX("pop"), g.tr()}
+		}
+		redef := []psref.Tok{psref.TL(name), psref.TP(second...), psref.TX("def")}
+		if g.draw(2, "viabegin") == 0 {
+			g.feat["dictstack"] = true
+			redef = append([]psref.Tok{psref.TI(1), psref.TX("dict"), psref.TX("begin")}, redef...)
+		}
+		toks := []psref.Tok{psref.TL(name), psref.TP(append(redef, first...)...), psref.TX("def")}
+		call := psref.TP(psref.TX(name))
+		switch kind {
+		case 0:
+			toks = append(toks, psref.TI(int64(1+g.draw(3, "repeatn"))), call, psref.TX("repeat"))
+		case 1:
+			toks = append(toks, call, psref.TX("loop"))
+		case 2:
+			toks = append(toks, psref.TI(0), psref.TI(1), psref.TI(int64(g.draw(3, "forlim"))), call, psref.TX("for"))
+		default:
+			toks = append(toks, psref.TX("["), g.tr(), g.tr(), g.tr(), psref.TX("]"), call, psref.TX("forall"))
+		}
+		return toks
 	case k == 24: // dictionary stack
 		g.feat["dictstack"] = true
 		inner := g.body(depth, inLoop)
